@@ -819,7 +819,11 @@ private:
       }
       else
       {
-        _peerIndex.erase(s->pkey);
+        auto pit = _peerIndex.find(s->pkey);
+        if (pit != _peerIndex.end() && pit->second == s->id)
+        {
+          _peerIndex.erase(pit);
+        }
       }
       _atomicStats.closed++;
       _atomicStats.sessionsCurrent--;
@@ -1598,7 +1602,14 @@ private:
     }
     else
     {
-      _peerIndex.erase(pkey);
+      // Several sessions can share one peer address (connectViaListener); the
+      // index entry belongs to ONE of them. Closing another must not silence or
+      // redirect the datagrams of the session that still receives this peer.
+      auto pit = _peerIndex.find(pkey);
+      if (pit != _peerIndex.end() && pit->second == sid)
+      {
+        _peerIndex.erase(pit);
+      }
     }
 
     _atomicStats.closed++;
